@@ -18,7 +18,18 @@ func genConcurrent(r *Rand, n int, o histOpts, limit int) *Case {
 		oo.prefix = fmt.Sprintf("c%d", i)
 		genHistory(r, c, oo)
 	}
-	c.Sched = &SchedCase{Strategy: r.Pick("uniform", "pct", "pct"), Depth: r.Range(1, 3)}
+	// every read is a schedule decision: keep one-byte segmentation for short
+	// sessions only
+	for i := range c.Conns {
+		var total int64
+		for _, m := range c.Conns[i].FlatMsgs() {
+			total += int64(len(m.Body())) + m.Pad
+		}
+		if total > 2000 && len(c.Conns[i].Cuts) > 0 {
+			c.Conns[i].Cuts = []int{r.PickInt(64, 500, 4000)}
+		}
+	}
+	c.Sched = &SchedCase{Strategy: r.Pick("uniform", "pct", "pct"), Depth: r.Range(1, 3), MaxSteps: 300000}
 	return c
 }
 
@@ -63,6 +74,11 @@ func checkConcurrent(prop string, x *Exec, c *Case, nsched int) ([]Violation, bo
 		}
 		r := x.Run(v)
 		v.Sched.Schedule = r.Schedule
+		if r.Outcome == RunBudget {
+			// the decision budget of the simulator ran out: inconclusive, not a verdict
+			x.Probe("decision_budget_exhausted")
+			return viol, false
+		}
 		if r.Outcome != RunIdle || r.Dirty {
 			*c = *v
 			return []Violation{{Prop: prop, Rule: "concurrent-run-stuck", Sig: "concurrent-run-stuck", Detail: fmt.Sprintf("the concurrent run did not finish: outcome=%d parked=%v", r.Outcome, r.Stuck)}}, true
